@@ -125,4 +125,21 @@ PROPS = {
             "larking may reject text that protojson accepts (e.g. '1.0' for an integer); it may not deliver a different value",
         ],
     },
+    "C04": {
+        "pkg": "c04",
+        "stages": [{"run": "^TestProp$", "quick": (5000, 4), "thorough": (80000, 16)}],
+        "technique": "property-based testing (rapid): generated replies x Accept/Accept-Encoding header grammar x routes (plain, response_body, HttpBody); independent decoders and an RFC 7231 Accept parser as oracle",
+        "level_text": "Generated-input search: the response body must decode, with the codec named by the response Content-Type and an independent decoder, to exactly the "
+                      "reply (or the response_body field); the Content-Type must be admitted by the Accept header per a reference RFC 7231 parser; HttpBody replies are "
+                      "byte-exact under their own type; Content-Encoding must describe the bytes. Exploration only.",
+        "level_note": "Trusts protojson/proto decoders and harness/ref.ParseAccept; 'admits' is read permissively (any range with q>0); malformed, mixed-case or "
+                      "parameterised Accept values only require a registered response type.",
+        "rule": "rapid draws a route (plain / response_body nest, nest.leaf, http_body / HttpBody method), GET or POST, a request content type, 0-3 Accept lines of "
+                "0-4 ranges (registered, wildcard, unregistered and upper-case types, q-values incl. 0 and malformed, parameters, junk), an Accept-Encoding "
+                "value, and a reply from the universe generator (empty .. ~100 KiB) or arbitrary HttpBody bytes/content type. Non-trivial = non-empty reply and "
+                "(>=2 ranges or a q-value or a wildcard or a response_body/HttpBody route); distinct = (route, verb, request type, contested, |Adm|, Accept text).",
+        "assumptions": [
+            "response compression never engages in the pinned tree (encoding offers are built from the codec table), so clause (d) is exercised only on identity responses; class 'response-gzip' counts the others",
+        ],
+    },
 }
